@@ -33,7 +33,7 @@ add('C16', 'Hypothesis-generated segments, query-point classes, facing segment p
     'function at checker-computed deformed Gauss points. Sampling only.',
     'Pairs face each other (anti-parallel within 60 degrees) as the contact search delivers them; distance accuracy is absolute (1e-12 of segment length plus '
     '16 ulp of the coordinates); the sign of the distance is not asserted for points on the line within rounding; mortar claims for tilted pairs are limited to '
-    'invariance, non-negativity and vanishing without overlap.')
+    'invariance, non-negativity, vanishing without overlap and agreement of compute_intersection with an independent projection along the common normal.')
 add('C20', 'Hypothesis-generated writer histories (model-based: ordered field tables, spheres, edges) + independent legacy-VTK reader; round-trip and byte-identity oracles',
     'Generated histories of add_nodal_field / add_cell_field / add_sphere / add_contact_edges / write on meshes of order 1-4 are executed against the real '
     'writer and against a model; after every write an independent strict reader parses the file and all counts, connectivity, coordinates and values are '
@@ -85,7 +85,7 @@ add('C01', 'Hypothesis-generated objective families x start points x solver sett
     'Generated search: seven objective families (convex, indefinite, singular, badly scaled, multi-modal) in dimension 1-12, settings that force each exit path (convergence, iteration cap, '
     'radius collapse with preconditioner retry), exact / stale / identity preconditioners, both inner products, incremental mode, direct call and load-step driver with a new parameter set. '
     'Oracles: returned point = last reported iterate, monotone objective along reported iterates (rounding bound from the sum of absolute terms), flag True => recomputed gradient norm '
-    'under the requested parameters < tol, objective.p = requested parameters, and success + unique minimiser on the well-conditioned convex sub-domain with default settings.',
+    'under the requested parameters < tol, objective.p = requested parameters, and success + unique minimiser on the well-conditioned convex sub-domain with default settings (start points up to 2e4 from the minimiser); a generated neighbourhood of a configuration that takes the rising-model branch (indefinite Hessian, preconditioner factorised elsewhere) is a separate sub-check.',
     'The dense Cholesky stand-in replaces scikit-sparse; exit paths are classified from the solver banners; known finding D9 (uphill trial point returned by the convergence exit) is '
     'excluded only for the last iterate of a successful solve.')
 add('C19', 'Hypothesis-generated parameterised energies, parameter changes, preconditioner states and load-step sequences through the drivers; reference-model oracle (dense Hessian / parameter Jacobian / Newton minimiser) and per-step invariants',
@@ -103,8 +103,8 @@ add('C05', 'Hypothesis-generated boxes (finite / one-sided / degenerate), feasib
 add('C04', 'Hypothesis-generated objectives and constraint sets (active / inactive / weakly active / redundant, linear and concave), multipliers, penalties and solver settings; KKT validity predicate recomputed from raw functions, active-set enumeration as reference, history invariants from the callback',
     'Generated search: on every normal return the Lagrangian gradient, feasibility, multiplier sign and complementarity are recomputed from the raw objective and constraint functions with bounds '
     'that follow from the Fischer-Burmeister termination test; strictly convex QPs with linear constraints are compared with an enumeration of all 2^m active sets; the callback history is checked for '
-    'non-negative multipliers and non-decreasing penalties; the bound-constrained front end is checked with its own multipliers, with and without PrecondStrategy and constraintStiffnessScaling. Sampling.',
-    'Non-returns (NameError) are counted, not asserted; sub-solver tolerance = 0.5*AL tolerance and reset_kappa() as all callers do; penalties fixed per compiled objective (baked into the FB residual).')
+    'non-negative multipliers and non-decreasing penalties, also with an iteration cap that makes sub-solves fail; the bound-constrained front end is checked with its own multipliers, with and without PrecondStrategy and constraintStiffnessScaling. Sampling.',
+    'Constraint sets without an interior point (checker-side SLSQP on max_x min_i c_i) are outside the domain; non-returns (NameError) are counted, not asserted; sub-solver tolerance = 0.5*AL tolerance and reset_kappa() as all callers do; penalties fixed per compiled objective (baked into the FB residual).')
 add('C02', 'Hypothesis-generated distorted meshes, materials with evolved internal state, displacement fields, essential-BC subsets, block partitions and Newmark parameters; differential oracle: element-wise assembled matrix vs jax.hessian of the library energy as a whole',
     'Generated search over seven groups of (factory, material, 2D mode, pressure projection, element order) cells: the matrix assembled from element stiffness blocks through the DofManager '
     'index maps is compared with the unknown x unknown block of the AD Hessian of compute_strain_energy / compute_algorithmic_energy with respect to the full nodal field (1e-9 relative), '
@@ -114,7 +114,7 @@ add('C02', 'Hypothesis-generated distorted meshes, materials with evolved intern
 add('C15', 'Hypothesis-generated meshes, constants, Newmark parameters, initial fields and variable time-step sequences; history invariants with a checker-side dense Newton minimiser of the library algorithmic energy',
     'Generated sequences of 1-8 variable time steps: predictor and corrector formulas, discrete momentum balance with the mass matrix taken as the Hessian of the kinetic energy (cross-checked against the '
     'assembled element masses and density*area), total energy conservation for the trapezoidal rule on linear elasticity, and exact rigid translation; general (gamma, beta) in the unconditionally stable '
-    'range, with and without essential BCs, orders 1-2, linear elastic and neo-Hookean. Sampling.',
+    'range, with and without essential BCs, orders 1-2, linear elastic and neo-Hookean, density over 14 decades (absolute dt down to 1e-8), and a sub-check with pressure projection degree 0 / 1 (factories built eagerly). Sampling.',
     'The minimiser of the algorithmic energy is computed by the checker (dense Newton), independent of the trust-region solver; cases where Newton does not reach 1e-10 are inconclusive; '
     'tolerances include the rounding of the acceleration as a difference of displacements.')
 add('C07', 'Hypothesis-generated parameterised energies, cotangents and multi-step pullback orders; preset distorted meshes with generated displacements / states / cotangents; differential oracle against dense implicit-function-theorem derivatives and dense forward-mode Jacobians',
